@@ -55,7 +55,10 @@ vars == <<so, gens, steps>>
 
 Init == so = InitSObj /\ gens = <<>> /\ steps = 0
 
-Disturb(gs, except) == [j \in 1..Len(gs) |-> IF j # except /\ ~gs[j].done THEN [gs[j] EXCEPT !.clean = FALSE] ELSE gs[j]]
+\* what another listing does disturbs a listing only once it has been started (its first next() resets everything it
+\* reads: thread map, a fresh TracesParser) - except a callstack listing, whose image table is reset when it is REQUESTED
+Disturb(gs, except) == [j \in 1..Len(gs) |-> IF j # except /\ ~gs[j].done /\ (gs[j].started \/ gs[j].kind = "cs")
+                                               THEN [gs[j] EXCEPT !.clean = FALSE] ELSE gs[j]]
 
 Open == /\ Len(gens) < MaxGens
         /\ \E kind \in Kinds, d \in 1..Len(Dumps) : \E c \in CodesFor(kind) :
